@@ -215,7 +215,8 @@ def run_brew_case(c, d):
     return bad
 
 
-def oracle_brew(c, frames, models, scores):
+def oracle_brew(c, frames, models, scores, keys_of=None):
+    """keys_of(j, frame): the spectrum of every row of file j when it is not the first c['width'] columns of KEY_COLS."""
     bad = []
     folds, width, cap = c["folds"], c["width"], c["cap"]
     if len(models) != folds:
@@ -246,7 +247,7 @@ def oracle_brew(c, frames, models, scores):
         used = set(int(t) for t in tag_of)
         if len(used) != folds:
             bad.append(("fold-count", "file %d: rows are scored by %d models, %d folds requested" % (j, len(used), folds)))
-        keys = full_keys(fr, width)
+        keys = keys_of(j, fr) if keys_of is not None else full_keys(fr, width)
         by_key = {}
         for i, k in enumerate(keys):
             by_key.setdefault(k, []).append(i)
@@ -733,6 +734,237 @@ def check_train_sets(tier, seed, started_large=None):
     return ck
 
 
+# ------------------------------------------------------------------------------------------------ read + re-used datasets
+# The spectrum of a PSM is what identifies the MEASURED spectrum (run, scan, retention time, measured mass); columns
+# that describe the CANDIDATE (theoretical mass, charge hypothesis, peptide, features) differ between the PSMs of one
+# spectrum. Here the generator knows the spectrum number of every row, the files go through the real reader
+# (mokapot.read_pin decides which columns form the spectrum key) and the same dataset objects are then split / brewed
+# one to three times in a row.
+READ_NAMES = {
+    "default": dict(filename="filename", ret_time="ret_time", expmass="ExpMass", calcmass="CalcMass", charge="Charge"),
+    "lower": dict(filename="FileName", ret_time="Ret_Time", expmass="expmass", calcmass="calcmass", charge="charge"),
+    "explicit": dict(filename="Run", ret_time="RT", expmass="ObsMass", calcmass="TheoMass", charge="Z"),
+}
+OPTIONAL = ("filename", "ret_time", "expmass", "calcmass", "charge")
+
+
+def build_read_frames(c):
+    """Per file the table written to disk and the (ground truth) spectrum number of every row."""
+    rng = np.random.default_rng(c["data_seed"])
+    names, has = READ_NAMES[c["naming"]], c["has"]
+    frames, truth, rid = [], [], 0
+    for file_scans in c["scans"]:
+        n = len(file_scans)
+        tgt = rng.integers(0, 2, n).astype(bool)
+        tgt[:4] = [True, False, True, False]
+        rng.shuffle(tgt)
+        rank, rows = {}, []
+        for i, s in enumerate(file_scans):
+            s = int(s)
+            k = rank[s] = rank.get(s, -1) + 1                 # candidate number within the spectrum
+            row = dict(SpecId="id%d" % rid, Label=1 if tgt[i] else -1)
+            # with a file-name column two runs use the same scan numbers, otherwise the scan number is unique
+            row["ScanNr"] = s // 2 if "filename" in has else s
+            if "filename" in has:
+                row[names["filename"]] = "run%d.mzML" % (s % 2)
+            if "ret_time" in has:
+                row[names["ret_time"]] = 10.0 + 0.5 * s
+            if "expmass" in has:
+                row[names["expmass"]] = 400.0 + 1.25 * s
+            if "calcmass" in has:                             # candidate level: differs within a spectrum
+                row[names["calcmass"]] = 400.0 + 1.25 * s + 0.01 * (k + 1)
+            row.update(f0=(10.0 if tgt[i] else 0.0) + float(rng.normal()), f1=float(rng.normal()), f2=rid)
+            if "charge" in has:                               # candidate level as well
+                row[names["charge"]] = 2 + k % 3
+            row.update(Peptide="PEP%dK" % rid, Proteins="p%d" % (rid % 3))
+            rows.append(row)
+            rid += 1
+        frames.append(pd.DataFrame(rows))
+        truth.append([int(s) for s in file_scans])
+    return frames, truth
+
+
+def read_datasets(c, frames, d):
+    import mokapot
+    names, has = READ_NAMES[c["naming"]], c["has"]
+    kw = {}
+    if c["naming"] == "explicit":
+        arg = dict(filename="filename_column", ret_time="rt_column", expmass="expmass_column",
+                   calcmass="calcmass_column", charge="charge_column")
+        kw = {arg[o]: names[o] for o in OPTIONAL if o in has}
+    paths = []
+    for j, fr in enumerate(frames):
+        p = d / ("r%d.%s" % (j, c["fmt"]))
+        if c["fmt"] == "parquet":
+            fr.to_parquet(p, index=False)
+        else:
+            fr.to_csv(p, sep="\t", index=False)
+        paths.append(p)
+    return mokapot.read_pin(paths, max_workers=1, **kw)
+
+
+def oracle_split_truth(res, truth, folds):
+    """res: what _split returned for one file; truth: spectrum number of every row."""
+    n = len(truth)
+    if len(res) != folds:
+        return [("fold-count", "%d arrays for %d folds" % (len(res), folds))]
+    flat = sorted(int(i) for a in res for i in a)
+    if flat != list(range(n)):
+        return [("not-a-partition", "fold arrays do not partition range(%d)" % n)]
+    where = {}
+    for f, a in enumerate(res):
+        for i in a:
+            where.setdefault(truth[int(i)], set()).add(f)
+    cut = sorted(k for k, v in where.items() if len(v) > 1)
+    if cut:
+        return [("spectrum-split-over-folds", "the PSMs of spectrum %d lie in folds %s (%d of %d spectra are cut)"
+                 % (cut[0], sorted(where[cut[0]]), len(cut), len(where)))]
+    if any(len(a) == 0 for a in res):
+        return [("empty-fold", "fold sizes %s" % [len(a) for a in res])]
+    return []
+
+
+def run_history_case(c, d):
+    """Returns [(case_id, what)] of the FIRST call of the history that breaks the property ('read-...' for the first
+    call on the freshly read datasets, 'reuse-...' for a later call on the same objects), [] when every call is fine,
+    'skip: ...' when a training set held only targets or only decoys."""
+    import copy
+    from mokapot.model import Model
+    import mokapot
+    frames, truth = build_read_frames(c)
+    try:
+        dss = read_datasets(c, frames, d)
+    except Exception as e:  # noqa
+        return [("read-raises-" + type(e).__name__, "read_pin: %s: %s" % (type(e).__name__, e))]
+    for ds, fr in zip(dss, frames):
+        if len(ds.spectra_dataframe) != len(fr) or not 1 <= len(ds.spectrum_columns) <= 4:
+            return [("read-spectra-frame", "spectrum columns %s, %d rows for %d PSMs"
+                     % (list(ds.spectrum_columns), len(ds.spectra_dataframe), len(fr)))]
+    id_col = list(dss[0].feature_columns).index("f2") if "f2" in dss[0].feature_columns else None
+    if id_col is None:
+        return [("read-feature-columns", "f2 is not a feature: %s" % (list(dss[0].feature_columns),))]
+    spectra = [ds.spectra_dataframe for ds in dss]        # what the reader attached; the unchanged _split removes it
+    for k, call in enumerate(c["history"]):
+        prefix = "read-" if k == 0 else "reuse-"
+        if k > 0 and c["reuse"] == "copy":
+            dss = [copy.copy(ds) for ds in dss]
+        for ds, sp in zip(dss, spectra):
+            ds.spectra_dataframe = sp
+        folds, bad = call["folds"], []
+        if any(pd.Series(t).value_counts().max() > len(t) // folds for t in truth):
+            known = "split-skewed-multiplicity"             # recorded class: a spectrum larger than a nominal fold
+        else:
+            known = None
+        try:
+            if call["kind"] == "split":
+                for j, ds in enumerate(dss):
+                    res = ds._split(folds, np.random.default_rng(call["rng"] + j))
+                    bad += [(cid, "file %d: %s" % (j, what)) for cid, what in oracle_split_truth(res, truth[j], folds)]
+            else:
+                model = Model(RecordingProba(id_col=id_col, shape="n2"), scaler="as-is", train_fdr=1.0, max_iter=1,
+                              override=True)
+                _, models, scores, _ = mokapot.brew(dss, model=model, test_fdr=0.5, folds=folds,
+                                                    max_workers=call["workers"], subset_max_train=call["cap"],
+                                                    rng=call["rng"])
+                bad = oracle_brew(dict(folds=folds, width=None, cap=call["cap"]), frames, models, scores,
+                                  keys_of=lambda j, fr: truth[j])
+        except Exception as e:  # noqa
+            msg = "%s: %s" % (type(e).__name__, e)
+            if isinstance(e, ValueError) and ("No target PSMs were" in str(e) or "No decoy PSMs were" in str(e)):
+                return "skip: " + msg
+            if known and isinstance(e, IndexError):
+                return [(known, msg)]
+            bad = [("raises-" + type(e).__name__, msg)]
+        if bad:
+            if known and all(cid == "empty-fold" for cid, _ in bad):
+                return [(known, bad[0][1])]
+            seen, out = set(), []
+            for cid, what in bad:
+                if cid not in seen:
+                    seen.add(cid)
+                    out.append((prefix + cid, "call %d of the history (%s, folds=%d): %s" % (k + 1, call["kind"], folds, what)))
+            return out[:3]
+    return []
+
+
+def gen_history_cases(tier, seed):
+    rng = np.random.default_rng(seed + 4)
+    n_cases = 96 if tier == "quick" else 2000
+    cases = []
+    for _ in range(n_cases):
+        n_files = int(rng.choice([1, 1, 2]))
+        history = []
+        for _k in range(int(rng.integers(1, 4))):
+            kind = str(rng.choice(["split", "brew"]))
+            history.append(dict(kind=kind, folds=int(rng.integers(2, 7)), rng=int(rng.integers(0, 10 ** 6)),
+                                workers=int(rng.choice([1, 2] if tier == "quick" else [1, 2, 8])), cap=None))
+        lo = 4 * max(h["folds"] for h in history) + 2          # every nominal fold holds at least four rows
+        scans = [gen_scans(rng, int(rng.integers(lo, 49))) for _j in range(n_files)]
+        for h in history:                                       # a cap that bites, below every file's training pool
+            if h["kind"] == "brew" and rng.random() < 0.5:
+                h["cap"] = int(rng.integers(2 * n_files + 4, max(2 * n_files + 5, min(len(s) for s in scans) // 2 * n_files)))
+        p = dict(filename=0.3, ret_time=0.35, expmass=0.7, calcmass=0.75, charge=0.3)
+        cases.append(dict(scans=scans, has=[o for o in OPTIONAL if rng.random() < p[o]],
+                          naming=str(rng.choice(list(READ_NAMES))), fmt=str(rng.choice(["tab", "parquet"])),
+                          data_seed=int(rng.integers(0, 10 ** 6)), reuse=str(rng.choice(["same", "copy"])),
+                          history=history))
+    return cases
+
+
+def _history_worker(cases):
+    with scratch("c02h_") as d:
+        return [run_history_case(c, d) for c in cases]
+
+
+def start_read_and_reuse(tier, seed, procs=4):
+    """Starts the evaluation of the histories in `procs` forked workers, so that it overlaps with the other checks;
+    pass the value to check_read_and_reuse."""
+    import multiprocessing as mp
+    cases = gen_history_cases(tier, seed)
+    pool = mp.get_context("fork").Pool(procs)
+    import time
+    return cases, pool, pool.map_async(_history_worker, [cases[i::procs] for i in range(procs)]), procs, time.time()
+
+
+def check_read_and_reuse(tier, seed, started=None):
+    if started is None:
+        started = start_read_and_reuse(tier, seed, procs=8)
+    cases, pool, pending, procs, t0 = started
+    results = [None] * len(cases)
+    for i, block in enumerate(pending.get()):
+        results[i::procs] = block
+    pool.close()
+    pool.join()
+    ck = Check("read_and_reused_datasets", "mokapot.read_pin -> OnDiskPsmDataset._split / mokapot.brew.brew, called 1-3 times on the same objects",
+               "random: %d cases with seed %d: 1-2 PIN files (tab-delimited / Parquet) of 4*max(folds)+2 .. 48 rows, spectrum "
+               "multiplicity 1-4, optional columns file name (30%%: two runs sharing their scan numbers) / retention time "
+               "(35%%) / measured mass (70%%) / theoretical mass (75%%, different for every candidate of a spectrum) / charge "
+               "(30%%, candidate level), named as mokapot expects them, in another letter case, or freely and passed as "
+               "*_column arguments; the datasets returned by read_pin (spectrum key of 1-4 columns chosen by the reader) "
+               "go through a history of 1-3 calls, each _split on every file or brew on all files, folds 2-6 drawn "
+               "independently per call, workers %s, subset_max_train absent / biting; between two calls the spectra "
+               "frame the reader attached is re-attached (the same object) to the same dataset objects or to "
+               "copy.copy of them; default chunk sizes" % (len(cases), seed + 4, "1/2" if tier == "quick" else "1/2/8"),
+               "the spectrum of a row is the generator's spectrum number (run, scan, retention time and measured mass are "
+               "functions of it; theoretical mass, charge, peptide and features are not); after EVERY call: exactly "
+               "`folds` non-empty folds partitioning the rows, every spectrum in one fold, and for brew the rule of "
+               "brew_cv_integrity (score from the fold's model, which saw neither the row nor its spectrum mates, "
+               "training rows within the other folds and the cap); the first failing call ends a history; "
+               "non-trivial = every call of the history passed and some spectrum has several PSMs")
+    ck.t0 = t0                                              # the workers were started then
+    skipped, found = 0, []
+    for c, res in zip(cases, results):
+        if isinstance(res, str):
+            skipped += 1
+            ck.case(c, nontrivial=False)
+            continue
+        ck.case(c, nontrivial=any(len(set(f)) < len(f) for f in c["scans"]) and not res)
+        found += [(cid, what, c) for cid, what in res]
+    report(ck, found)
+    ck.rule += "; %d histories skipped because a training set held only targets or only decoys" % skipped
+    return ck
+
+
 # ------------------------------------------------------------------------------------------------ replay
 def REPLAY(check_name, violation):
     c = violation["input"]
@@ -745,6 +977,9 @@ def REPLAY(check_name, violation):
         res = run_split_case(c)
     elif check_name == "make_train_sets":
         res = run_train_sets_case(c)
+    elif check_name == "read_and_reused_datasets":
+        with scratch("c02r_") as d:
+            res = run_history_case(c, d)
     else:
         return {"violated": None, "note": "no replay for %s" % check_name}
     if isinstance(res, str):
@@ -756,10 +991,17 @@ if __name__ == "__main__":
     a = args()
     np.random.seed(a.seed)
     started = start_large_train_sets(a.tier, a.seed)   # forked first: runs while the other checks are evaluated
-    emit([check_brew(a.tier, a.seed), check_split(a.tier, a.seed), check_train_sets(a.tier, a.seed, started)],
+    started_hist = start_read_and_reuse(a.tier, a.seed)
+    emit([check_brew(a.tier, a.seed), check_split(a.tier, a.seed), check_train_sets(a.tier, a.seed, started),
+          check_read_and_reuse(a.tier, a.seed, started_hist)],
          ["fold membership of a row is read off the score (tag of the model that produced it); the training rows of a "
           "model are what its estimator's fit() received (train_fdr=1.0 keeps every target as a positive, so nothing "
           "is filtered before fit)",
           "ensemble mode off; models fitted by brew (not user-supplied)",
           "training sets holding only targets or only decoys are outside the domain (mokapot refuses them by design)",
-          "crc32 collisions between different spectrum keys are not enumerated"])
+          "crc32 collisions between different spectrum keys are not enumerated",
+          "read_and_reused_datasets: which columns identify a spectrum is taken from the meaning of the PIN columns (run, "
+          "scan, retention time, measured mass: the spectrum; theoretical mass, charge, peptide: the candidate); a "
+          "dataset is re-used by re-attaching the spectra frame the reader gave it, because the pinned _split deletes "
+          "that attribute (a second brew on an untouched, already split dataset object raises AttributeError and is "
+          "outside the domain)"])
